@@ -76,13 +76,19 @@ def build_capture(seed):
         frames.append([udp_frame(fl, g.d, g.payload) for g in qc.dgrams])
         keylog += qc.keylog
         conns.append(dict(proto="quic", sport=sp, cport=fl.client.port, flow=fl, truth=[(g.d, g.stream) for g in qc.dgrams if g.stream]))
-    # round-robin merge
+    # round-robin merge in a seeded connection order with staggered starts (which connection -- TLS or QUIC, to which port -- is seen
+    # first must not matter for the role / port decision of the others)
     merged, idx = [], [0] * len(frames)
+    order = list(range(len(frames)))
+    rng.shuffle(order)
+    start = {i: rng.choice([0, 0, 3, 9]) for i in order}
+    rnd = 0
     while any(idx[i] < len(frames[i]) for i in range(len(frames))):
-        for i in range(len(frames)):
-            if idx[i] < len(frames[i]):
+        for i in order:
+            if idx[i] < len(frames[i]) and rnd >= start[i]:
                 merged.append(frames[i][idx[i]])
                 idx[i] += 1
+        rnd += 1
     ts0 = 1_700_000_000_000_000
     return pcapng_bytes([(ts0 + 1009 * i, fr) for i, fr in enumerate(merged)]), keylog, conns
 
